@@ -63,12 +63,13 @@ def r17_1(run):
     run.ob("R17.1", loc(at, at.node), at.short, "astensor routes to tensor(..., copy=False) forwarding dtype and constant", ok,
            "tensor(t, dtype=dtype, constant=constant, copy=False, ...)" if ok else "astensor copies / drops an option")
     # asarray unwraps
-    cfg = build_cfg(run, asa)
     a0 = asa.node.args.args[0].arg
+    from .util import default_assume
+    cfg = build_cfg(run, asa, default_assume(asa.node, keep=(a0, "dtype", "order")))
     unwrap = [n for n in own_nodes(asa.node) if isinstance(n, ast.Assign) and assigned_name(n) == a0 and norm(n.value) == f"{a0}.data"]
     tests = [n for n, s in cfg.stmt.items() if cfg.label[n] == "If" and norm(s) == f"isinstance({a0}, Tensor)"]
     ok = bool(unwrap) and any(cfg.edge_dominates(tt, "true", cfg.node_for(unwrap[0])) for tt in tests)
-    rets = [r for r in own_nodes(asa.node) if isinstance(r, ast.Return)]
+    rets = [r for r in own_nodes(asa.node) if isinstance(r, ast.Return) and cfg.node_for(r) is not None and cfg.reachable(cfg.node_for(r))]
     ok2 = bool(rets) and all(isinstance(r.value, ast.Call) and fx.ext_name_of(asa, r.value.func) == "numpy.asarray"
                              and norm(r.value.args[0]) == a0 and norm(kw(r.value, "dtype") or ast.Constant(0)) == "dtype"
                              and norm(kw(r.value, "order") or ast.Constant(0)) == "order" for r in rets)
@@ -243,7 +244,16 @@ def r17_4(run):
     run.ob("R17.4", loc(cp, cp.node), cp.short, "copy() builds a new tensor from np.copy(self.data) with no creator/base", ok,
            "detached, own memory" if ok else "copy() shares memory or graph with the original")
     k = kw(builds[0], "constant") if builds else None
-    ok = k is not None and norm(k).replace(" ", "") == "self.constantifconstantisNoneelseconstant"
+    ok = k is not None and norm(k).replace(" ", "") in ("self.constantifconstantisNoneelseconstant", "constantifconstantisnotNoneelseself.constant")
+    if not ok and isinstance(k, ast.Name) and builds:
+        # statement form:  if constant is None: constant = self.constant   ...   Tensor(..., constant=constant)
+        cfgc = build_cfg(run, cp)
+        at = cfgc.stmt_node_containing(builds[0])
+        defs = reaching_defs(cfgc, k.id, at) if at is not None else []
+        tests = [t for t, st_ in cfgc.stmt.items() if cfgc.label.get(t) == "If" and norm(st_) == f"{k.id} is None"]
+        inner = [d for d in defs if d != ENTRY]
+        ok = ENTRY in defs and bool(inner) and k.id in {a_.arg for a_ in cp.node.args.args + cp.node.args.kwonlyargs} and all(
+            norm(getattr(cfgc.stmt[d], "value", ast.Constant(0))) == "self.constant" and any(cfgc.edge_dominates(t, "true", d) for t in tests) for d in inner)
     run.ob("R17.4", loc(cp, cp.node), cp.short, "copy() keeps the flag unless constant= is given", ok, norm(k) if k is not None else "-")
     ast_ = anchor_func(run, f"{TB}.Tensor.astype")
     cast = [n for n in own_nodes(ast_.node) if isinstance(n, ast.Assign) and isinstance(n.value, ast.Call)
